@@ -317,6 +317,7 @@ class ReturnSignal(Exception):
 
 
 CUBEROOT_SRC = "return np.sign(x) * np.abs(x) ** (1 / 3)"
+CUBEROOT_CASTS = ("x = np.asarray(x, dtype=float)", "x = x.astype(float)", "x = np.asarray(x, float)")
 
 
 # ------------------------------------------------------------------------------------------------ builder (lets)
@@ -1176,7 +1177,22 @@ class Frame:
         if op not in table:
             bad('comparison operator', e)
         g = table[op]
-        return elementwise(lambda x: (g(x[0][0], x[1][0]), None), a, b, isbool=True)
+        # a side that may be +inf (0/1 flag) against a FINITE side: where the flag is set the answer is the one IEEE gives for +inf
+        # (inf == c, inf < c, inf <= c are False; inf != c, inf > c, inf >= c are True; mirrored when inf is on the right)
+        inf_left = {ast.Eq: C0, ast.NotEq: C1, ast.Lt: C0, ast.LtE: C0, ast.Gt: C1, ast.GtE: C1}[op]
+        inf_right = {ast.Eq: C0, ast.NotEq: C1, ast.Lt: C1, ast.LtE: C1, ast.Gt: C0, ast.GtE: C0}[op]
+
+        def cmp(x):
+            (ta, ia), (tb, ib) = x
+            if ia is not None and ib is not None:
+                bad('comparison of two values that may both be inf', e)
+            r = g(ta, tb)
+            if ia is not None:
+                r = If(ia, inf_left, r)
+            if ib is not None:
+                r = If(ib, inf_right, r)
+            return r, None
+        return elementwise(cmp, a, b, isbool=True, allow_inf=True)
 
     def dot(self, a, b, e):
         if not (isinstance(a, Arr) and isinstance(b, Arr)) or a.inf is not None or b.inf is not None:
@@ -1439,6 +1455,10 @@ class Frame:
                 if fd in (None, 'ambiguous'):
                     bad('cuberoot not found', e)
                 body = [s for s in fd.body if not (isinstance(s, ast.Expr) and isinstance(s.value, ast.Constant))]
+                # a leading value-preserving float cast of the argument (since /repo cebc7a5: np.sign has no bool loop) is the identity
+                # in the rational model - same reading as the dtype guards
+                if len(body) == 2 and ast.unparse(body[0]) in CUBEROOT_CASTS:
+                    body = body[1:]
                 if len(body) != 1 or ast.unparse(body[0]) != CUBEROOT_SRC:
                     bad('cuberoot is not the function modelled as the abstract primitive 1', e)
                 return elementwise(lambda x: (('Prim', 1, x[0][0]), None), ev(0))
@@ -1878,6 +1898,7 @@ if __name__ == '__main__':
 
 # ------------------------------------------------------------------------------------------------ self-test (fail-closed)
 NEGATIVE = {
+    'two values that may be inf compared': "def f(A):\n    K = np.sum(A, axis=0)\n    L = np.sum(A, axis=1)\n    K[K == 0] = np.inf\n    L[L == 0] = np.inf\n    return 1.0 * (K == L)",
     'explicit node index': "def f(A):\n    return A[0, :]",
     'explicit cell': "def f(A):\n    d = np.sum(A, axis=0)\n    return d[0]",
     'node 0 special in a loop': "def f(A):\n    n = len(A)\n    C = np.zeros((n,))\n    for u in range(n):\n        if u == 0:\n            C[u] = 1\n    return C",
